@@ -28,6 +28,7 @@ Definition scram_run (v256 : bool) (cfg : scram_cfg) (precis : bytes -> option b
    (not the password); sp_other_key is the ServerKey of another password, sp_empty_key = HMAC("", "Server Key").
    The three keys are supplied by the harness (computed with Go's crypto). *)
 Record srv_params := { sp_salt : bytes; sp_iter : N; sp_server_key : bytes; sp_other_key : bytes; sp_empty_key : bytes;
+                       sp_zero_key : bytes (* HMAC(0^hashlen, "Server Key"): ServerKey of an all-zero SaltedPassword *);
                        sp_nonce : bytes (* server part of the nonce *) }.
 
 (* what the server knows: client-first-message-bare and client nonce of the last client-first it received,
@@ -101,6 +102,7 @@ Definition concretize (v256 : bool) (p : srv_params) (prev : bytes) (sym : N) (v
   | 19 => let m := bs "r=" ++ v_cn v ++ sp_nonce p ++ bs ",s=" ++ b64enc (sp_salt p) ++ bs ",i=+5" in (chal m, sent_first v m)
   | 20 => let m := bs "r=" ++ v_cn v ++ sp_nonce p ++ bs ",s=" ++ b64enc (sp_salt p) ++ bs ",i=" in (chal m, sent_first v m)
   | 21 => let m := bs "r=" ++ v_cn v ++ sp_nonce p ++ bs ",s=" ++ b64enc (sp_salt p) ++ bs ",i=4096x" in (chal m, sent_first v m)
+  | 23 => (chal (srv_sig v256 (sp_zero_key p) v), v)   (* server-final computed from an all-zero SaltedPassword *)
   | 22 => let m := bs "r=" ++ v_cn v ++ sp_nonce p ++ bs ",s=" ++ b64enc (sp_salt p) ++ bs ",i=99999999999999999999" in (chal m, sent_first v m)     (* the valid server-final of an EARLIER exchange of this dialogue, resent *)
   | _ => (chal prev, v)
   end.
@@ -156,6 +158,19 @@ Definition c15_run (v256 : bool) (cfg : scram_cfg) (precis : bytes -> option byt
   let script := build_script v256 cfg precis id p [] s0 syms in
   let f := scram_run v256 cfg precis id false s0 script in
   (result_code (f_res f), o_sent (f_out f)).
+
+(* several complete dialogues in one process, each with a FRESH scramAuth value on a new connection, same account
+   parameters: derivations are pure, nothing but the randomness oracle links one dialogue to the next *)
+Fixpoint c15_multi (v256 : bool) (cfg : scram_cfg) (precis : bytes -> option bytes) (id : scram_id)
+         (p : srv_params) (rands : list bytes) (dialogues : list (list N)) : list (bytes * list bytes) :=
+  match dialogues with
+  | [] => []
+  | syms :: rest =>
+      let s0 := (ss_zero, rands) in
+      let script := build_script v256 cfg precis id p [] s0 syms in
+      let f := scram_run v256 cfg precis id false s0 script in
+      (result_code (f_res f), o_sent (f_out f)) :: c15_multi v256 cfg precis id p (snd (f_state f)) rest
+  end.
 
 (* the last valid server-final (symbol 3) of a script, for the retry cases *)
 Definition last_final (v256 : bool) (p : srv_params) (script : list reply) (sent : list bytes) : bytes :=
